@@ -933,8 +933,6 @@ func (a *nilAn) constArrayText(v ssa.Value) bool {
 // ---- R-STALERAW -----------------------------------------------------------------------
 
 var staleRawConverters = map[string]string{
-	"intoDoc":  "typestate-checked converter: re-parses only when which differs from the target state; a node parsed as the other kind fails on its own text",
-	"intoAry":  "typestate-checked converter: re-parses only when which differs from the target state; a node parsed as the other kind fails on its own text",
 	"nextByte": "kind-only read: looks at the first non-space byte, which in-place edits never change",
 }
 
